@@ -215,18 +215,26 @@ def judge_sessions(prop, rep, events, name):
     return verdicts
 
 
+# Level I follows the code: "0" = the line buffer survives a disconnect (the code as found), "1" = it is emptied
+CLEAR_ON_DISCONNECT = "1"
+
+
 def lifecycle_model(prop, tier, rep):
     """Step D for the client's life (RadarSession): safety and, under weak fairness of the program's own steps, liveness"""
     for r in ("0", "1"):
-        res = core.run_mc("MC_RadarSession", workers=4, timeout=900, cache=False, env_extra={"RETRY": r, "RESTORE": "1"})
+        res = core.run_mc("MC_RadarSession", workers=4, timeout=900, cache=False, env_extra={"RETRY": r, "RESTORE": "1", "CLEAR": CLEAR_ON_DISCONNECT})
         rep.add_model(res, f"MC_RadarSession(retry={r}): Inv, KeepsAircraft, RunsUntilAsked, QuitLeadsToExit, ClosedFeedLeadsToExit, Reconnects")
         if not res["ok"]:
             rep.mismatch(prop, "session|model", "lifecycle", {"kind": "model", "violated": res["violated"], "tail": res["output_tail"][-800:]})
     if tier == "thorough":
-        r0 = core.run_mc("MC_RadarSession", workers=4, timeout=900, cache=False, env_extra={"RETRY": "1", "RESTORE": "0"})
+        r0 = core.run_mc("MC_RadarSession", workers=4, timeout=900, cache=False, env_extra={"RETRY": "1", "RESTORE": "0", "CLEAR": "1"})
         rep.extra["original_wait_quit_model_violates_TerminalRestored"] = (not r0["ok"]) and "Inv" in r0["violated"]
         if r0["ok"]:
             raise core.ToolError("anti-vacuity: the model of the original wait-quit path no longer violates TerminalRestored")
+        r1 = core.run_mc("MC_RadarSession", workers=4, timeout=900, cache=False, env_extra={"RETRY": "1", "RESTORE": "1", "CLEAR": "0"})
+        rep.extra["original_line_buffer_model_violates_LinesIntact"] = (not r1["ok"]) and "Inv" in r1["violated"]
+        if r1["ok"]:
+            raise core.ToolError("anti-vacuity: the model that keeps the line buffer across a disconnect no longer violates LinesIntact")
 
 
 def life_jobs(rng, tier):
